@@ -844,6 +844,8 @@ lemma("index-order-is-invariant-under-the-counter-start", _epoch_shift)
 #                hashed by address (id) is not a function of the model
 #   thread-schedule   ThreadPoolExecutor / ProcessPoolExecutor / as_completed
 #   unseeded-rng      random.Random() / numpy default_rng() / RandomState() called without any argument
+#   process-state     a class-level mutable container (list/dict/set/deque literal in the class body) mutated in place by a
+#                     method and never rebound per instance: one object for the whole interpreter
 #   process-memo      @functools.lru_cache / @functools.cache on a function whose key parameters are not all annotated
 #                     int/str/bytes/bool: an interpreter-wide table that earlier simulations fill and later ones read
 # Set-typed expressions are inferred from annotations (`set[...]`, `dict[..., set[...]]`, parameters, returns,
@@ -1021,9 +1023,64 @@ class _ModuleScan(_ast.NodeVisitor):
     def visit_ClassDef(self, n):
         self.stack.append(n.name)
         self.cls_stack.append(n.name)
+        self._process_state_sites(n)
         self.generic_visit(n)
         self.cls_stack.pop()
         self.stack.pop()
+
+    # process-state: a CLASS-LEVEL mutable container (list/dict/set/deque/... initialiser in the class body) that some
+    # method mutates in place through self / cls / the class name, and that no method rebinds per instance: one object
+    # shared by every instance in the interpreter, i.e. state that earlier simulations leave behind for later ones
+    _MUTATORS = {"append", "extend", "pop", "popleft", "appendleft", "add", "update", "clear", "insert", "remove", "discard",
+                 "setdefault", "popitem", "sort", "reverse"}
+
+    def _process_state_sites(self, cnode):
+        shared = {}
+        for st in cnode.body:
+            tgt = val = None
+            if isinstance(st, _ast.Assign) and len(st.targets) == 1 and isinstance(st.targets[0], _ast.Name):
+                tgt, val = st.targets[0].id, st.value
+            elif isinstance(st, _ast.AnnAssign) and isinstance(st.target, _ast.Name) and st.value is not None:
+                tgt, val = st.target.id, st.value
+            if tgt is None:
+                continue
+            mutable = isinstance(val, (_ast.List, _ast.Dict, _ast.Set, _ast.ListComp, _ast.DictComp, _ast.SetComp)) or (
+                isinstance(val, _ast.Call) and isinstance(val.func, _ast.Name)
+                and val.func.id in ("list", "dict", "set", "deque", "defaultdict", "OrderedDict", "Counter", "bytearray"))
+            if mutable:
+                shared[tgt] = st
+        if not shared:
+            return
+        owners = {"self", "cls", cnode.name}
+        rebound, mutated = set(), {}
+        for fn_ in _ast.walk(cnode):
+            if not isinstance(fn_, (_ast.FunctionDef, _ast.AsyncFunctionDef)):
+                continue
+            for x in _ast.walk(fn_):
+                def is_attr(e):
+                    return (isinstance(e, _ast.Attribute) and isinstance(e.value, _ast.Name) and e.value.id in owners
+                            and e.attr in shared)
+                if isinstance(x, (_ast.Assign, _ast.AnnAssign, _ast.AugAssign)):
+                    for t in (x.targets if isinstance(x, _ast.Assign) else [x.target]):
+                        if is_attr(t) and t.value.id == "self" and not isinstance(x, _ast.AugAssign):
+                            rebound.add(t.attr)
+                        if isinstance(t, _ast.Subscript) and is_attr(t.value):
+                            mutated.setdefault(t.value.attr, (fn_, x))
+                        if isinstance(x, _ast.AugAssign) and is_attr(t):
+                            mutated.setdefault(t.attr, (fn_, x))
+                elif isinstance(x, _ast.Delete):
+                    for t in x.targets:
+                        if isinstance(t, _ast.Subscript) and is_attr(t.value):
+                            mutated.setdefault(t.value.attr, (fn_, x))
+                elif isinstance(x, _ast.Call) and isinstance(x.func, _ast.Attribute) and x.func.attr in self._MUTATORS \
+                        and is_attr(x.func.value):
+                    mutated.setdefault(x.func.value.attr, (fn_, x))
+        for name, (fn_, x) in mutated.items():
+            if name in rebound:
+                continue
+            self.stack.append(fn_.name)
+            self.site("process-state", x, f"class-level mutable `{name}` of {cnode.name} shared by every instance and mutated in place")
+            self.stack.pop()
 
     def visit_Assign(self, n):
         k = _val_kind(n.value) or self._kind_of(n.value)
